@@ -1,3 +1,4 @@
+import Pds.Proofs.KernelTie.TdGuard
 import Pds.Proofs.KernelTie.TdCore
 import Pds.Proofs.KernelTie.TdRead
 /-!
@@ -13,5 +14,22 @@ theorem fuse_translated (a b : Centroid α) :
 theorem mean_translated (c : Centroid α) : Centroid_mean c.sum c.count = c.mean := centroid_mean c
 
 theorem count_translated (cs : List (Centroid α)) : td_count cs = totalCount cs := td_count_eq cs
+
+/-- the public `insert_weighted` as translated has the branches of the model's `insertWeighted` (finite arguments) -/
+theorem insert_guard_translated (sf : ScaleFn α) (s : St α) (x w : α) (hx : KOps.isFinite x = true) (hw : KOps.isFinite w = true) :
+    (td_insert_guard x w = Flow.panic ↔ insertWeighted sf s x w = none) ∧
+    (td_insert_guard x w = Flow.ret false → insertWeighted sf s x w = some s) ∧
+    (td_insert_guard x w = Flow.ret true ↔ 0 < w) := by
+  rw [td_insert_guard_eq x w hx hw]
+  unfold insertWeighted
+  rcases lt_trichotomy w 0 with h | h | h
+  · have h2 : ¬ (0 : α) < w := not_lt.mpr (le_of_lt h)
+    simp [h, h2]
+  · subst h; simp
+  · have h2 : ¬ w < 0 := not_lt.mpr (le_of_lt h)
+    simp [h, h2]
+/-- a non-finite value or weight is the assertion panic -/
+theorem insert_guard_not_finite (x w : α) (h : KOps.isFinite x = false ∨ KOps.isFinite w = false) :
+    td_insert_guard x w = Flow.panic := td_insert_guard_not_finite x w h
 
 end Pds.Tie.C16
